@@ -92,6 +92,105 @@ def monitor(impl_text, obs_text):
     return bad
 
 
+# --------------------------------------------------------------------------------------------
+# element types whose == is not the identity on storage (NaN, element_transformed through function pointers):
+# harness/c07_elemeq.cpp vs Model/CompareBy.v eq_flat_by, evaluated inside Coq (vm_compute)
+# --------------------------------------------------------------------------------------------
+E_RE = re.compile(r"^E (\d+) (\S+) \| ([^|]*) \| ([^|]*) \|([^|]*)\|([^|]*)\| ([01]) ([01])$")
+
+
+def _coq_exts(txt):
+    return "[" + "; ".join("(%s, %s)" % tuple(p.split(":")) for p in txt.strip().split(",") if p) + "]"
+
+
+def _coq_list(txt):
+    return "[" + "; ".join(("(%s)" % t) if t.startswith("-") else t for t in txt.split()) + "]"
+
+
+def elemeq_is_replay(path):
+    try:
+        return "found-by: elemeq" in open(path).read()
+    except OSError:
+        return False
+
+
+def elemeq(res, tier, seed):
+    """Returns the coverage record; reports violations itself."""
+    import os
+    ok, exe, log = core.build_harness("c07_elemeq", ["c07_elemeq.cpp"])
+    src = open(os.path.join(core.VERIF, "harness", "c07_elemeq.cpp")).read()
+    if not ok:
+        first = [l for l in log.splitlines() if "error" in l][:1]
+        path = core.write_replay(PID, src, {"property": PID, "found-by": "elemeq build: ==/!= between same-type views of double / element_transformed arrays does not compile",
+                                            "compiler-said": first[0] if first else ""})
+        res.violation(path, "c07_elemeq.cpp does not compile against the tree (%s)" % (first[0][-160:] if first else "see replay"))
+        return {"built": False}
+    seeds = [seed] if tier == "quick" else [seed + k for k in range(12)]
+    total, kinds, nan_cases, same_base_unequal, failing = 0, {}, 0, 0, 0
+    for sd in seeds:
+        rc, out, err = core.sh([exe, str(sd)], timeout=300)
+        lines = [l for l in out.splitlines() if l.startswith("E ")]
+        cases = []
+        for l in lines:
+            m = E_RE.match(l)
+            if not m:
+                rc = rc or 99
+                continue
+            cases.append((int(m.group(1)), m.group(2), m.group(3), m.group(4), m.group(5), m.group(6), m.group(7), m.group(8), l))
+        if rc != 0 or not cases:
+            path = core.write_replay(PID, "\n".join(lines[-3:]) + "\n" + err[-1500:] + "\n",
+                                     {"property": PID, "found-by": "elemeq run: the comparison program stops (exit %d) after the last line below" % rc,
+                                      "seed": sd, "how-to-replay": "./check C07 --replay <this file> (re-runs harness/c07_elemeq.cpp with the seed)"})
+            res.violation(path, "c07_elemeq stops with exit %d (assertion / crash) on comparisons inside the documented domain: %s" % (rc, err.strip()[-200:]))
+            failing += 1
+            continue
+        total += len(cases)
+        for c in cases:
+            k = c[1].split(":", 1)[1] if ":" in c[1] else c[1]
+            kinds[k] = kinds.get(k, 0) + 1
+            if "999" in c[4].split() or "999" in c[5].split():
+                nan_cases += 1
+        body = ";\n  ".join("(%d, (%s, %s, %s, %s, %s, %s))" % (c[0], _coq_exts(c[2]), _coq_exts(c[3]), _coq_list(c[4]), _coq_list(c[5]),
+                                                                "true" if c[6] == "1" else "false", "true" if c[7] == "1" else "false") for c in cases)
+        vtxt = ("From Coq Require Import ZArith List Bool.\nFrom BM Require Import Model.Layout Model.CompareBy.\nImport ListNotations.\nLocal Open Scope Z_scope.\n"
+                "Definition cases : list (Z * (list range * list range * list Z * list Z * bool * bool)) :=\n  [" + body + "].\n"
+                "Definition bad (c : Z * (list range * list range * list Z * list Z * bool * bool)) : bool :=\n"
+                "  let '(_, (xa, xb, fa, fb, oeq, one)) := c in let m := eq_flat_by (nan_eqb 999) xa xb fa fb in\n"
+                "  negb (Bool.eqb m oeq) || negb (Bool.eqb (negb m) one).\n"
+                "Eval vm_compute in (map fst (filter bad cases)).\n")
+        d = os.path.join(core.BUILD, "c07_elemeq")
+        os.makedirs(d, exist_ok=True)
+        vp = os.path.join(d, "cases_%d.v" % sd)
+        open(vp, "w").write(vtxt)
+        rc2, out2, err2 = core.sh(["coqc", "-Q", core.COQ, "BM", vp], timeout=900, cwd=d)
+        flat = " ".join(out2.split())
+        m = re.search(r"= \[(.*?)\] : list Z", flat)
+        if rc2 != 0 or not m:
+            path = core.write_replay(PID, vtxt[:4000], {"property": PID, "found-by": "elemeq: the model side (Model/CompareBy.v eq_flat_by under vm_compute) does not evaluate",
+                                                       "coqc-said": (out2 + err2)[-600:]})
+            res.violation(path, "Model/CompareBy.v could not be evaluated on the comparison cases", no_input=True)
+            failing += 1
+            continue
+        ids = [int(t.replace("%Z", "")) for t in m.group(1).replace(";", " ").split()]
+        if ids:
+            failing += len(ids)
+            byid = {c[0]: c for c in cases}
+            shown = [byid[i][8] for i in ids[:40]]
+            path = core.write_replay(PID, "\n".join(shown) + "\n",
+                                     {"property": PID, "found-by": "elemeq: library's == / != differ from Model/CompareBy.v eq_flat_by (element-by-element comparison with the element type's own ==; 999 = NaN)",
+                                      "seed": sd, "disagreeing-comparisons": len(ids),
+                                      "line-format": "E id what | extensions of a | extensions of b | elements of a | elements of b | observed a==b, a!=b",
+                                      "how-to-replay": "./check C07 --replay <this file> (re-runs harness/c07_elemeq.cpp with the seed and the Coq evaluation)"})
+            res.violation(path, "%d comparisons between views whose element == is not the identity on storage (NaN / element_transformed) are wrong, first: %s" % (len(ids), shown[0][:200]))
+    return {"built": True, "seeds": seeds, "comparisons": total, "comparisons_with_a_nan": nan_cases, "by_operand_pair_kind": kinds, "disagreeing": failing,
+            "rule": "double arrays of rank 1..3 (sizes 0..4, 1..3 x 1..3, 2x2x2) with no NaN and with one NaN at every position; each compared with itself as array, "
+                    "view, const view, transposed / rotated / sliced / strided / reversed view, row, column, diagonal, elements() range, with views of the SAME storage "
+                    "that share the base pointer and the extensions but not the strides (A() vs A.transposed() of square arrays, row 0 vs column 0), and with an owning "
+                    "copy; and pairs of element_transformed views of one int array (rank 1, 2; rows; transposed; from const and mutable arrays) through function pointers of "
+                    "one static type (16 pairs of 4 functions): same base pointer, same layout, same type, different elements.  Expected answers: Model/CompareBy.v "
+                    "eq_flat_by (nan_eqb 999) evaluated by vm_compute on the extensions and element codes the harness printed"}
+
+
 class Fam(progcheck.Family):
     def impl_run(self, prog_text, shards=None):
         out, crashes = super().impl_run(prog_text, shards)
@@ -141,6 +240,11 @@ def run(tier, seed, replay=None):
     res = core.Result(PID, tier, seed, level="proof")
     if replay and rank0.is_rank0_replay(replay):
         rank0.replay(res, PID, replay)
+        return res.finish()
+    if replay and elemeq_is_replay(replay):
+        m = re.search(r"^# seed: (\d+)", open(replay).read(), re.M)
+        core.coq_make(["Model/CompareBy.vo"])
+        print("replay verdict:", elemeq(res, "quick", int(m.group(1)) if m else seed))
         return res.finish()
     fam = FAMILY
     has_ge = ge_probe()
@@ -201,6 +305,7 @@ def run(tier, seed, replay=None):
         "disagreeing_cases": n_failing,
         "not_exercised": ["rank >= 5", "fancy pointers (C11)"],
     })
+    res.coverage["element_equality_not_identity"] = elemeq(res, tier, seed)
     res.assumptions = ["no 64-bit overflow", "g++ 12 / libstdc++ as installed", "element order is that of int"]
     rank0.run_family(res, tier, seed, PID)     # dimensionality 0: compile probes + h_rank0 (coverage under "rank0")
     return res.finish()
